@@ -32,6 +32,9 @@ type c09Case struct {
 	Strat   int  `json:"strat,omitempty"`
 	// pipe: ReadFault > 0 = reading the profile file breaks off with an I/O error after ReadFault-1 bytes
 	ReadFault int `json:"readFault,omitempty"`
+	// pipe: Big > 0 = a comment block of that many bytes stands in the profile file, in front of its subject rules (1) or of its first line (2)
+	Big    int `json:"big,omitempty"`
+	BigPos int `json:"bigPos,omitempty"`
 }
 
 var c09Alphabet = []string{"CN", "O", "C", "1.2.3.4"}
@@ -128,6 +131,14 @@ func c09Enumerate(tier string, yield func(any)) {
 				c.Kind, c.HasList, c.Subject, c.Pos = "pipe", true, s, pos
 				cc := c
 				yield(&cc)
+				// the same with a large profile file (a long comment in front of the rules or at the top)
+				for _, big := range []int{60 << 10, 80 << 10, 300 << 10} {
+					for bp := 1; bp <= 2; bp++ {
+						c3 := c
+						c3.Big, c3.BigPos = big, bp
+						yield(&c3)
+					}
+				}
 				for _, st := range []int{0, 1, 15, 16} {
 					c2 := c
 					c2.Settled, c2.Strat = true, st
@@ -300,6 +311,16 @@ func c09Pipe(x *engine.Ctx, c *c09Case) {
 	} else {
 		d.Render(w)
 	}
+	if c.Big > 0 {
+		block := strings.Repeat("# "+strings.Repeat("=", 61)+"\n", c.Big/64+1)
+		text := string(w.Files[prof.Path].Data)
+		if i := strings.Index(text, "subjectAttributes"); c.BigPos == 1 && i >= 0 {
+			text = text[:i] + block + text[i:]
+		} else {
+			text = block + text
+		}
+		w.Put(prof.Path, []byte(text))
+	}
 	if c.ReadFault > 0 {
 		if c.ReadFault-1 > len(w.Files[prof.Path].Data) {
 			x.Outcome("pipe: read fault beyond the end of the profile file")
@@ -325,7 +346,7 @@ func c09Pipe(x *engine.Ctx, c *c09Case) {
 		return
 	}
 	x.Transition(1)
-	x.Nontrivial(fmt.Sprintf("pipe %v %v %v %v %d %v %d", c.Attrs, c.Optional, c.AllowOther, c.Subject, c.Pos, c.Settled, c.Strat))
+	x.Nontrivial(fmt.Sprintf("pipe %v %v %v %v %d %v %d %d %d", c.Attrs, c.Optional, c.AllowOther, c.Subject, c.Pos, c.Settled, c.Strat, c.Big, c.BigPos))
 	if res.Panic != "" {
 		x.Violation("C09/panic/"+res.PanicSite, res.Panic)
 		return
@@ -354,7 +375,7 @@ func init() {
 	register(&engine.Check{
 		ID:          "C09",
 		Level:       "model_checking",
-		Rule:        "every profile = (attribute list of length 0..4 over {CN,O,C,1.2.3.4} x optional flag) x allowOther, plus the absent list (9363 profiles) x every subject of length 1..5 over {CN,O,C,1.2.3.4,L} (3905), and the same product over {1.2.3.4, 2.5.4.97, CN} with subjects over those plus L (3108 profiles x 1364 subjects): config.Validate on the real parsed RDN sequence vs. the reference predicate transcribed from the statement, one profile object shared by all its subjects as in a run and compared with its definition after every verdict, every verdict asked for twice on the same objects; plus 7 profiles x 9 subjects x 3 positions of the constrained entity in a root->mid->leaf chain through the whole file pipeline (rejected => planning error, empty write log), on a fresh directory and on a directory first generated under a profile of the same name without subject rules and then run with default / -m only / all four reasons / -a; and three forbidden subjects with the read of the profile file breaking off after every possible number of bytes (the subject must not be certified, whatever arrived). Pairs are distinct by construction; states = profiles, transitions = Validate calls / runs",
+		Rule:        "every profile = (attribute list of length 0..4 over {CN,O,C,1.2.3.4} x optional flag) x allowOther, plus the absent list (9363 profiles) x every subject of length 1..5 over {CN,O,C,1.2.3.4,L} (3905), and the same product over {1.2.3.4, 2.5.4.97, CN} with subjects over those plus L (3108 profiles x 1364 subjects): config.Validate on the real parsed RDN sequence vs. the reference predicate transcribed from the statement, one profile object shared by all its subjects as in a run and compared with its definition after every verdict, every verdict asked for twice on the same objects; plus 7 profiles x 9 subjects x 3 positions of the constrained entity in a root->mid->leaf chain through the whole file pipeline (rejected => planning error, empty write log), on a fresh directory, with a 60 / 80 / 300 KiB comment block in the profile file in front of its subject rules or at its top, and on a directory first generated under a profile of the same name without subject rules and then run with default / -m only / all four reasons / -a; and three forbidden subjects with the read of the profile file breaking off after every possible number of bytes (the subject must not be certified, whatever arrived). Pairs are distinct by construction; states = profiles, transitions = Validate calls / runs",
 		Bound:       map[string]string{"profile length": "<=4", "subject length": "<=5", "alphabet": "3 short names + 1 custom OID + 1 foreign attribute"},
 		Assumptions: []string{"profile attributes that the schema allows but no table resolves (PC, DC, T, UID, MAIL) are outside the statement"},
 		Budget:      budgets(quickBudget, thoroughBudget),
